@@ -192,6 +192,7 @@ type fdEnt struct {
 	ino    *inodeM
 	off    int64
 	append bool
+	write  bool
 	path   string
 }
 
@@ -210,6 +211,7 @@ type model struct {
 	// unmodelled lists calls in the window that touch the directory and that
 	// the model cannot interpret.
 	unmodelled []string
+	classMemo  map[string]string
 }
 
 // harmless are calls without effect on content, names or durability.
@@ -368,7 +370,7 @@ func buildModel(rel []*event, dir, dest string, versions [3][]byte, hasV0 bool) 
 				if has("O_TRUNC") && (has("O_WRONLY") || has("O_RDWR")) && in.Cur.size() > 0 {
 					addOp(in, dataOp{Trunc: true, N: 0})
 				}
-				fds[int(ret)] = &fdEnt{ino: in, append: has("O_APPEND"), path: p}
+				fds[int(ret)] = &fdEnt{ino: in, append: has("O_APPEND"), write: has("O_WRONLY") || has("O_RDWR"), path: p}
 			case "close":
 				if fd, ok := fdOf(e.Args[0]); ok {
 					delete(fds, fd)
@@ -491,8 +493,8 @@ func buildModel(rel []*event, dir, dest string, versions [3][]byte, hasV0 bool) 
 				}
 			case "lseek":
 				fd, _ := fdOf(e.Args[0])
-				if fe := fds[fd]; fe != nil && len(fe.ino.Ops) > 0 {
-					note("seek on a written file")
+				if fe := fds[fd]; fe != nil && fe.write {
+					note("seek on a descriptor open for writing")
 				}
 			default:
 				if !harmless[e.Name] {
@@ -632,10 +634,18 @@ func (m *model) materialize(c content) (b []byte, ok bool) {
 
 // classify names the state of the destination given by bytes (or symbolic
 // content): "v0".."v2", "absent", "empty", "truncated", "mixed".
-func (m *model) classifyContent(c content, present bool) string {
+func (m *model) classifyContent(c content, present bool) (class string) {
 	if !present {
 		return "absent"
 	}
+	key := c.String()
+	if m.classMemo == nil {
+		m.classMemo = map[string]string{}
+	}
+	if cl, ok := m.classMemo[key]; ok {
+		return cl
+	}
+	defer func() { m.classMemo[key] = class }()
 	for j := 2; j >= 0; j-- {
 		if m.equalsVersion(c, j) {
 			return "v" + strconv.Itoa(j)
